@@ -3,7 +3,10 @@
 package provider
 
 // C44 harness: replays spec/Reprovider + spec/Reprovider/PrioProvider cases on the real
-// provider.New / NewPrioritizedProvider and records random passes for trace validation.
+// provider.New / NewPrioritizedProvider / NewConcatProvider / NewBufferedProvider and records
+// random passes for trace validation.  Everything is driven over SEVERAL passes: one System
+// runs consecutive Reprovide calls (with SetKeyProvider in between), one KeyChanFunc returned
+// by a combinator is invoked repeatedly.
 
 import (
 	"context"
@@ -33,11 +36,22 @@ type c44Cb struct {
 	N        uint `json:"n"`
 	Complete bool `json:"complete"`
 }
-type c44Case struct {
+type c44PlanStep struct {
+	How string `json:"how"` // "same" | "set" | "setnil"
+	Arg []int  `json:"arg"`
+}
+type c44Pass struct {
 	Stream  []int   `json:"stream"`
-	Cfg     c44Cfg  `json:"cfg"`
 	Batches [][]int `json:"batches"`
 	Cb      []c44Cb `json:"cb"`
+}
+
+// one system, len(Passes) consecutive Reprovide passes; Plan[p-1] says what happens between
+// pass p and pass p+1 (nothing / SetKeyProvider(Arg) / SetKeyProvider(nil))
+type c44Case struct {
+	Cfg    c44Cfg        `json:"cfg"`
+	Plan   []c44PlanStep `json:"plan"`
+	Passes []c44Pass     `json:"passes"`
 }
 
 const c44Unlimited = 9999
@@ -128,19 +142,28 @@ type c44Result struct {
 	detail  string
 }
 
-func c44Run(stream []int, cfg c44Cfg, emit bool, watchdog time.Duration) c44Result {
-	bad := map[int]bool{}
-	for _, k := range cfg.Bad {
-		bad[k] = true
-	}
-	rec := &c44Recorder{byMh: map[string]int{}, emit: emit}
+// c44Sys is one real provider.System with fake router + recorded callbacks, on which several
+// reprovide passes are run.
+type c44Sys struct {
+	sys  System
+	rec  *c44Recorder
+	bad  map[int]bool
+	emit bool
+	cbMu sync.Mutex
+	cbs  []c44Cb
+}
+
+// key provider over a fixed key stream; every invocation streams all of it again
+func (s *c44Sys) kpFor(stream []int) KeyChanFunc {
 	var cids []cid.Cid
+	s.rec.mu.Lock()
 	for _, k := range stream {
-		c := c44Cid(k, bad[k])
-		rec.byMh[string(c.Hash())] = k
+		c := c44Cid(k, s.bad[k])
+		s.rec.byMh[string(c.Hash())] = k
 		cids = append(cids, c)
 	}
-	kp := func(ctx context.Context) (<-chan cid.Cid, error) {
+	s.rec.mu.Unlock()
+	return func(ctx context.Context) (<-chan cid.Cid, error) {
 		ch := make(chan cid.Cid)
 		go func() {
 			defer close(ch)
@@ -154,22 +177,41 @@ func c44Run(stream []int, cfg c44Cfg, emit bool, watchdog time.Duration) c44Resu
 		}()
 		return ch, nil
 	}
-	var cbs []c44Cb
-	var cbMu sync.Mutex
-	opts := []Option{ReproviderInterval(0), KeyProvider(kp)}
+}
+
+// wrap: "" | "buf" | "prio1" | "concat1" -- combinators that are identities on one stream
+func c44Wrap(kp KeyChanFunc, wrap string) KeyChanFunc {
+	switch wrap {
+	case "buf":
+		return NewBufferedProvider(kp)
+	case "prio1":
+		return NewPrioritizedProvider(kp)
+	case "concat1":
+		return NewConcatProvider(kp)
+	}
+	return kp
+}
+
+func c44NewSys(stream []int, cfg c44Cfg, emit bool, wrap string) (*c44Sys, error) {
+	s := &c44Sys{bad: map[int]bool{}, emit: emit}
+	for _, k := range cfg.Bad {
+		s.bad[k] = true
+	}
+	s.rec = &c44Recorder{byMh: map[string]int{}, emit: emit}
+	opts := []Option{ReproviderInterval(0), KeyProvider(c44Wrap(s.kpFor(stream), wrap))}
 	if cfg.Many {
-		opts = append(opts, Online(c44Many{rec}))
+		opts = append(opts, Online(c44Many{s.rec}))
 	} else {
-		opts = append(opts, Online(c44Single{rec}))
+		opts = append(opts, Online(c44Single{s.rec}))
 	}
 	if cfg.Batch != c44Unlimited {
 		opts = append(opts, MaxBatchSize(cfg.Batch))
 	}
 	if cfg.HasThr {
 		opts = append(opts, ThroughputReport(func(reprovide, complete bool, n uint, d time.Duration) bool {
-			cbMu.Lock()
-			cbs = append(cbs, c44Cb{n, complete})
-			cbMu.Unlock()
+			s.cbMu.Lock()
+			s.cbs = append(s.cbs, c44Cb{n, complete})
+			s.cbMu.Unlock()
 			if emit {
 				vEmit(M{"ev": "Callback", "n": n, "complete": complete, "reprovide": reprovide})
 			}
@@ -178,13 +220,24 @@ func c44Run(stream []int, cfg c44Cfg, emit bool, watchdog time.Duration) c44Resu
 	}
 	sys, err := New(dssync.MutexWrap(datastore.NewMapDatastore()), opts...)
 	if err != nil {
-		return c44Result{outcome: "err:new:" + err.Error()}
+		return nil, err
 	}
-	defer sys.Close()
+	s.sys = sys
+	return s, nil
+}
+
+// pass runs ONE Reprovide on the system and returns what the router / callback saw during it.
+func (s *c44Sys) pass(watchdog time.Duration) c44Result {
+	s.rec.mu.Lock()
+	s.rec.batches, s.rec.unknown, s.rec.notRaw = nil, 0, 0
+	s.rec.mu.Unlock()
+	s.cbMu.Lock()
+	s.cbs = nil
+	s.cbMu.Unlock()
 	ctx, cancel := context.WithCancel(context.Background())
 	defer cancel()
 	done := make(chan error, 1)
-	go func() { done <- sys.Reprovide(ctx) }()
+	go func() { done <- s.sys.Reprovide(ctx) }()
 	res := c44Result{}
 	select {
 	case err := <-done:
@@ -202,19 +255,29 @@ func c44Run(stream []int, cfg c44Cfg, emit bool, watchdog time.Duration) c44Resu
 			panic("c44: Reprovide neither terminates nor honours context cancellation")
 		}
 	}
-	rec.mu.Lock()
-	res.batches = rec.batches
-	if rec.unknown > 0 {
-		res.detail = fmt.Sprintf("%d announced multihashes are not keys of the stream", rec.unknown)
+	s.rec.mu.Lock()
+	res.batches = s.rec.batches
+	if s.rec.unknown > 0 {
+		res.detail = fmt.Sprintf("%d announced multihashes are not keys of the stream", s.rec.unknown)
 	}
-	if rec.notRaw > 0 {
+	if s.rec.notRaw > 0 {
 		res.detail = "single Provide not called with a CIDv1-raw of the multihash"
 	}
-	rec.mu.Unlock()
-	cbMu.Lock()
-	res.cbs = cbs
-	cbMu.Unlock()
+	s.rec.mu.Unlock()
+	s.cbMu.Lock()
+	res.cbs = s.cbs
+	s.cbMu.Unlock()
 	return res
+}
+
+// between applies one plan step (what happens between two passes)
+func (s *c44Sys) between(how string, arg []int, wrap string) {
+	switch how {
+	case "set":
+		s.sys.SetKeyProvider(c44Wrap(s.kpFor(arg), wrap))
+	case "setnil":
+		s.sys.SetKeyProvider(nil)
+	}
 }
 
 func c44Norm(b [][]int) string {
@@ -253,29 +316,52 @@ func c44Replay(t *testing.T) {
 		if hangs >= 3 {
 			wd = 300 * time.Millisecond // the defect is established; do not spend 3 s on each further case
 		}
-		r := c44Run(c.Stream, c.Cfg, false, wd)
 		res := M{"i": i, "ok": true}
-		fail := func(what string) { res = M{"i": i, "ok": false, "step": 0, "what": what} }
-		switch {
-		case r.outcome == "hang":
-			hangs++
-			fail(fmt.Sprintf("Reprovide did not return within %v (spec: terminates with %d batches); batches so far %s", wd, len(c.Batches), c44Norm(r.batches)))
-		case r.outcome != "ok":
-			fail("Reprovide returned " + r.outcome)
-		case r.detail != "":
-			fail(r.detail)
-		case c44Norm(r.batches) != c44Norm(c.Batches):
-			fail(fmt.Sprintf("router batches %s, spec expects %s", c44Norm(r.batches), c44Norm(c.Batches)))
-		default:
-			got, _ := json.Marshal(r.cbs)
-			want, _ := json.Marshal(c.Cb)
-			if len(r.cbs) == 0 && len(c.Cb) == 0 {
-				got, want = nil, nil
+		if len(c.Passes) == 0 || len(c.Plan) != len(c.Passes)-1 {
+			t.Fatalf("case %d: malformed plan/passes", i)
+		}
+		sys, err := c44NewSys(c.Passes[0].Stream, c.Cfg, false, "")
+		if err != nil {
+			vEmit(M{"i": i, "ok": false, "step": 0, "what": "New: " + err.Error()})
+			n++
+			continue
+		}
+		for p, want := range c.Passes {
+			if p > 0 {
+				sys.between(c.Plan[p-1].How, c.Plan[p-1].Arg, "")
 			}
-			if string(got) != string(want) {
-				fail(fmt.Sprintf("throughput callbacks %s, spec expects %s", got, want))
+			r := sys.pass(wd)
+			what := ""
+			switch {
+			case r.outcome == "hang":
+				hangs++
+				what = fmt.Sprintf("Reprovide did not return within %v (spec: terminates with %d batches); batches so far %s", wd, len(want.Batches), c44Norm(r.batches))
+			case r.outcome != "ok":
+				what = "Reprovide returned " + r.outcome
+			case r.detail != "":
+				what = r.detail
+			case c44Norm(r.batches) != c44Norm(want.Batches):
+				what = fmt.Sprintf("router batches %s, spec expects %s", c44Norm(r.batches), c44Norm(want.Batches))
+			default:
+				got, _ := json.Marshal(r.cbs)
+				exp, _ := json.Marshal(want.Cb)
+				if len(r.cbs) == 0 && len(want.Cb) == 0 {
+					got, exp = nil, nil
+				}
+				if string(got) != string(exp) {
+					what = fmt.Sprintf("throughput callbacks %s, spec expects %s", got, exp)
+				}
+			}
+			if what != "" {
+				how := "first pass"
+				if p > 0 {
+					how = fmt.Sprintf("pass %d on the same system (after %q), stream %v", p+1, c.Plan[p-1].How, want.Stream)
+				}
+				res = M{"i": i, "ok": false, "step": p, "what": how + ": " + what}
+				break
 			}
 		}
+		sys.sys.Close()
 		vEmit(res)
 		n++
 	}
@@ -283,27 +369,25 @@ func c44Replay(t *testing.T) {
 }
 
 type c44PrioCase struct {
+	Kind    string  `json:"kind"` // "prio" | "bufprio" | "concat"
 	Streams [][]int `json:"streams"`
-	Errs    []int   `json:"errs"`
-	Out     []int   `json:"out"`
+	Errs    [][]int `json:"errs"` // per pass: 1-based indices of the streams whose KeyChanFunc fails
+	Outs    [][]int `json:"outs"` // per pass: expected emission sequence
 }
 
+// The combinator is built ONCE; the KeyChanFunc it returns is invoked len(Outs) times, as a
+// reprovider does at every pass.
 func c44ReplayPrio(t *testing.T) {
-	n := 0
+	n, nfail := 0, 0
 	for i, raw := range vIn() {
 		var c c44PrioCase
 		if err := json.Unmarshal(raw, &c); err != nil {
 			t.Fatalf("case %d: %v", i, err)
 		}
 		byCid := map[cid.Cid]int{}
+		var failing sync.Map // stream index -> bool, for the current pass
 		var fns []KeyChanFunc
 		for si, s := range c.Streams {
-			isErr := false
-			for _, e := range c.Errs {
-				if e == si+1 {
-					isErr = true
-				}
-			}
 			var cs []cid.Cid
 			for _, k := range s {
 				cc := c44Cid(k, false)
@@ -311,7 +395,7 @@ func c44ReplayPrio(t *testing.T) {
 				cs = append(cs, cc)
 			}
 			fns = append(fns, func(ctx context.Context) (<-chan cid.Cid, error) {
-				if isErr {
+				if v, ok := failing.Load(si + 1); ok && v.(bool) {
 					return nil, errors.New("stream failed")
 				}
 				ch := make(chan cid.Cid)
@@ -328,44 +412,79 @@ func c44ReplayPrio(t *testing.T) {
 				return ch, nil
 			})
 		}
-		ctx, cancel := context.WithTimeout(context.Background(), 10*time.Second)
-		ch, err := NewPrioritizedProvider(fns...)(ctx)
+		var kcf KeyChanFunc
+		switch c.Kind {
+		case "prio":
+			kcf = NewPrioritizedProvider(fns...)
+		case "bufprio":
+			kcf = NewBufferedProvider(NewPrioritizedProvider(fns...))
+		case "concat":
+			kcf = NewConcatProvider(fns...)
+		default:
+			t.Fatalf("case %d: unknown kind %q", i, c.Kind)
+		}
 		res := M{"i": i, "ok": true}
-		if err != nil {
-			res = M{"i": i, "ok": false, "step": 0, "what": "error " + err.Error()}
-		} else {
-			got := []int{}
-			for x := range ch {
-				got = append(got, byCid[x])
+		for p, want := range c.Outs {
+			for si := range c.Streams {
+				failing.Store(si+1, false)
 			}
-			if ctx.Err() != nil {
-				res = M{"i": i, "ok": false, "step": 0, "what": "prioritized provider did not finish within 10s"}
-			} else if fmt.Sprint(got) != fmt.Sprint(c.Out) {
-				res = M{"i": i, "ok": false, "step": 0, "what": fmt.Sprintf("emitted %v, spec expects %v", got, c.Out)}
+			for _, e := range c.Errs[p] {
+				failing.Store(e, true)
+			}
+			ctx, cancel := context.WithTimeout(context.Background(), 10*time.Second)
+			ch, err := kcf(ctx)
+			what := ""
+			if err != nil {
+				what = "error " + err.Error()
+			} else {
+				got := []int{}
+				for x := range ch {
+					got = append(got, byCid[x])
+				}
+				if ctx.Err() != nil {
+					what = "key provider did not finish within 10s"
+				} else if fmt.Sprint(got) != fmt.Sprint(want) {
+					what = fmt.Sprintf("emitted %v, spec expects %v", got, want)
+				}
+			}
+			cancel()
+			if what != "" {
+				res = M{"i": i, "ok": false, "step": p, "what": fmt.Sprintf("%s invocation %d of the same KeyChanFunc (failing streams %v): %s", c.Kind, p+1, c.Errs[p], what)}
+				break
 			}
 		}
-		cancel()
+		if res["ok"] == false {
+			nfail++
+			if nfail > 25 {
+				res = M{"i": i, "ok": true, "capped": true}
+			}
+		}
 		vEmit(res)
 		n++
 	}
-	vEmit(M{"summary": true, "n": n})
+	vEmit(M{"summary": true, "n": n, "failed": nfail})
+}
+
+func c44RandStream(rng interface{ Intn(int) int }, nk, maxLen int) []int {
+	stream := make([]int, rng.Intn(maxLen+1))
+	for i := range stream {
+		stream[i] = 1 + rng.Intn(nk)
+	}
+	return stream
 }
 
 func c44Record(t *testing.T) {
 	rng := vRand()
-	runs := 40
+	runs := 30
 	if !vQuick() {
-		runs = 400
+		runs = 300
 	}
+	wraps := []string{"", "buf", "prio1", "concat1"}
 	for r := 0; r < runs; r++ {
 		nk := 1 + rng.Intn(20)
-		ln := rng.Intn(201)
+		stream := c44RandStream(rng, nk, 200)
 		if r%5 == 0 {
-			ln = rng.Intn(6)
-		}
-		stream := make([]int, ln)
-		for i := range stream {
-			stream[i] = 1 + rng.Intn(nk)
+			stream = c44RandStream(rng, nk, 5)
 		}
 		cfg := c44Cfg{Many: rng.Intn(3) != 0, HasThr: rng.Intn(2) == 0, CbStop: rng.Intn(4) == 0, Bad: []int{}}
 		switch rng.Intn(4) {
@@ -387,19 +506,38 @@ func c44Record(t *testing.T) {
 				cfg.Bad = append(cfg.Bad, k)
 			}
 		}
+		// the key provider handed to the system is the plain stream or the stream behind a
+		// combinator that is an identity on one stream (spec: PrioProvider) -- not in the trace
+		wrap := wraps[rng.Intn(len(wraps))]
 		vEmit(M{"ev": "Reset", "stream": stream, "batch": cfg.Batch, "many": cfg.Many, "hasThr": cfg.HasThr,
-			"thr": cfg.Thr, "cbStop": cfg.CbStop, "bad": cfg.Bad})
-		res := c44Run(stream, cfg, true, 5*time.Second)
-		e := ""
-		if res.outcome != "ok" {
-			e = res.outcome
-		} else if res.detail != "" {
-			e = res.detail
-		}
-		vEmit(M{"ev": "Done", "err": e})
-		if res.outcome == "hang" {
-			// the rest of the pass never happened; later runs would only repeat the same defect
+			"thr": cfg.Thr, "cbStop": cfg.CbStop, "bad": cfg.Bad, "wrap": wrap})
+		sys, err := c44NewSys(stream, cfg, true, wrap)
+		if err != nil {
+			vEmit(M{"ev": "Done", "err": "err:new:" + err.Error()})
 			continue
 		}
+		passes := 1 + rng.Intn(3)
+		for p := 0; p < passes; p++ {
+			if p > 0 {
+				how := []string{"same", "same", "set", "set", "setnil"}[rng.Intn(5)]
+				if how == "set" {
+					stream = c44RandStream(rng, nk, 60)
+				}
+				vEmit(M{"ev": "Pass", "how": how, "stream": stream})
+				sys.between(how, stream, wrap)
+			}
+			res := sys.pass(5 * time.Second)
+			e := ""
+			if res.outcome != "ok" {
+				e = res.outcome
+			} else if res.detail != "" {
+				e = res.detail
+			}
+			vEmit(M{"ev": "Done", "err": e})
+			if res.outcome == "hang" {
+				break // the rest of the pass never happened; the system is in an unknown state
+			}
+		}
+		sys.sys.Close()
 	}
 }
